@@ -39,8 +39,12 @@ RULE = ('cases = (lock kind, per-task programs of r/w acquisitions with an '
 EXHAUSTIVE_NOTE = ('all permit interleavings of 3 tasks x 1 acquisition '
                    '(r/w each) with zero or one cancel at every position, and '
                    'all of 2 tasks x 2 acquisitions; both lock kinds')
-ASSUMPTIONS = ['asyncio subsystem only; the threading twins of the lock '
-               'classes need OS-thread schedules this technique does not own',
+ASSUMPTIONS = ['the asyncio classes are decided on schedules the harness owns; '
+               'the threading twins (what the maildir CLI uses) additionally '
+               'run under real OS threads with a 1 us switch interval, where '
+               'only an observed overlap counts and a quiet run proves '
+               'nothing (coverage.thread_contended_entries says how often '
+               'threads actually met)',
                'FileLock expiry (600 s by wall clock) is not exercised']
 BUDGET = {'quick': (150, 16), 'thorough': (3000, 16)}
 
@@ -95,8 +99,120 @@ def _settle(loop: VLoop, advance: float, max_steps: int = 5000) -> None:
         return
 
 
+def _thread_case(case: dict[str, Any]) -> CaseOut:
+    """The threading twins under real OS threads (the harness does not own
+    this schedule: an observed overlap is a fact, a quiet run proves
+    nothing). Every thread runs its own event loop, as
+    _ThreadingSubsystem._run_in_thread does; the interpreter's switch
+    interval is set to 1 us so that threads interleave inside the lock's own
+    bookkeeping. Only exclusion is judged; a thread that has not finished
+    after 60 s is counted as inconclusive."""
+    import sys
+    import threading
+    import time
+    from pymap.concurrent import ReadWriteLock, FileLock
+    out = CaseOut()
+    lk = case['lock']
+    path = None
+    if lk == 'file':
+        if 'dir' not in _scratch:
+            shard_setup(0)
+        _scratch['n'] += 1
+        path = os.path.join(_scratch['dir'], 'tlock%d' % _scratch['n'])
+        # many short retries instead of the default back-off up to 1 s
+        lock: Any = FileLock(path, read_retry_delay=[0.0005] * 20000,
+                             write_retry_delay=[0.0005] * 20000) \
+            if _filelock_takes_delays() else FileLock(path)
+    else:
+        lock = ReadWriteLock.for_threading()
+    guard = threading.Lock()
+    inside = {'r': 0, 'w': 0}
+    bad: list[str] = []
+    entries = [0]
+    contended = [0]
+
+    def enter(mode: str) -> None:
+        with guard:
+            if inside['r'] or inside['w']:
+                contended[0] += 1
+            if mode == 'w' and inside['w']:
+                bad.append('two-writers-inside:threads:' + lk)
+            if lk == 'rw' and mode == 'w' and inside['r']:
+                bad.append('writer-overlaps-reader:threads')
+            if lk == 'rw' and mode == 'r' and inside['w']:
+                bad.append('reader-overlaps-writer:threads')
+            inside[mode] += 1
+            entries[0] += 1
+
+    def leave(mode: str) -> None:
+        with guard:
+            inside[mode] -= 1
+
+    async def body(modes: list[str], pause: int) -> None:
+        for i, mode in enumerate(modes):
+            cm = lock.read_lock() if mode == 'r' else lock.write_lock()
+            async with cm:
+                enter(mode)
+                for _ in range(pause):
+                    time.sleep(0)          # let other threads run
+                leave(mode)
+
+    def worker(modes: list[str], pause: int) -> None:
+        loop = asyncio.new_event_loop()
+        try:
+            loop.run_until_complete(body(modes, pause))
+        except TimeoutError:
+            with guard:
+                bad.append('inconclusive:lock-wait-timed-out')
+        finally:
+            loop.close()
+
+    old = sys.getswitchinterval()
+    sys.setswitchinterval(1e-6)
+    try:
+        threads = [threading.Thread(target=worker, daemon=True,
+                                    args=(list(m) * case['repeat'], pz))
+                   for m, pz in zip(case['modes'], case['pause'])]
+        for t in threads:
+            t.start()
+        deadline = time.monotonic() + 60
+        for t in threads:
+            t.join(max(0.0, deadline - time.monotonic()))
+        stuck = [t for t in threads if t.is_alive()]
+    finally:
+        sys.setswitchinterval(old)
+    for sig in sorted(set(bad)):
+        if sig.startswith('inconclusive'):
+            out.label(sig)
+        else:
+            out.fail(sig, f'{sig} with thread programs {case["modes"]} x '
+                     f'{case["repeat"]}, pauses {case["pause"]}')
+    if stuck:
+        out.label('inconclusive:threads-not-finished-after-60s')
+    elif lk == 'file' and path and os.path.exists(path) and not bad:
+        out.fail('lock-file-left-behind:threads',
+                 f'{path} exists after all threads finished')
+    out.label('threads', 'threads:' + lk)
+    out.counters['thread_critical_sections'] = entries[0]
+    out.counters['thread_contended_entries'] = contended[0]
+    if len(case['modes']) >= 2 and any('w' in m for m in case['modes']):
+        out.nontrivial = case_hash(case)
+    out.sample = {'kind': 'threads', 'lock': lk, 'modes': case['modes'],
+                  'repeat': case['repeat']}
+    return out
+
+
+def _filelock_takes_delays() -> bool:
+    import inspect
+    from pymap.concurrent import FileLock
+    ps = inspect.signature(FileLock.__init__).parameters
+    return 'read_retry_delay' in ps and 'write_retry_delay' in ps
+
+
 def run_case(case: dict[str, Any]) -> CaseOut:
     from pymap.concurrent import ReadWriteLock, FileLock
+    if case.get('kind') == 'threads':
+        return _thread_case(case)
     out = CaseOut()
     kind = case['kind']
     progs = case['progs']
@@ -294,8 +410,21 @@ def strategy(tier: str) -> Any:
     action = st.tuples(
         st.sampled_from(['go', 'go', 'go', 'go', 'go', 'cancel']),
         st.integers(0, 3)).map(list)
-    return st.fixed_dictionaries({
+    owned = st.fixed_dictionaries({
         'kind': st.sampled_from(['rw', 'rw', 'file']),
         'progs': progs,
         'schedule': st.lists(action, min_size=2, max_size=16),
     })
+    # the threading twins under real threads (a minority: each case takes
+    # tens of milliseconds and its schedule is the operating system's)
+    n = st.shared(st.integers(2, 5), key='nthreads')
+    threads = st.fixed_dictionaries({
+        'kind': st.just('threads'),
+        'lock': st.sampled_from(['rw', 'rw', 'rw', 'file']),
+        'modes': n.flatmap(lambda k: st.lists(
+            st.text('rw', min_size=1, max_size=4), min_size=k, max_size=k)),
+        'pause': n.flatmap(lambda k: st.lists(
+            st.integers(0, 3), min_size=k, max_size=k)),
+        'repeat': st.sampled_from([5, 20, 60]),
+    })
+    return st.one_of(owned, owned, owned, owned, owned, threads)
